@@ -80,6 +80,12 @@ var c10Shapes = []struct {
 	{"arg-wider", "d *D, s *S, n interface{}, a AA", "", 1},
 	{"variadic", "d *D, s *S, n int, a ...AA", "", 0},
 	{"func-variable", "", "", 2},
+	// round 5 (C10-m9): operand parameters of an INTERFACE type the operands satisfy.  Whether such a hook "fits" is not pinned
+	// down (today: refused); if it is accepted it must still get the function's own operands - a dereferenced copy boxed
+	// into the interface is not the real operand, whatever the hook does to it is lost
+	{"dst-interface", "d interface{}, s *S", "", 2},
+	{"src-interface", "d *D, s interface{}", "", 2},
+	{"both-interface", "d, s interface{}", "", 2},
 }
 
 func c10ShapeDecl(name string, shape int) string {
@@ -390,6 +396,24 @@ func init() {
 					for site, sh := range map[string]int{"Pre(": mx.Pre, "Post(": mx.Post} {
 						if sh >= 0 && !strings.Contains(bodyOnly(o.Out), site) {
 							return []report.Finding{{Key: "C10|hook-call-missing|mixed|" + feat, What: "accepted, but the generated function does not call " + site + ")"}}
+						}
+					}
+					for site, sh := range map[string]int{"Pre(": mx.Pre, "Post(": mx.Post} {
+						if sh < 0 || !strings.HasSuffix(c10Shapes[sh].id, "-interface") {
+							continue
+						}
+						body := bodyOnly(o.Out)
+						i := strings.Index(body, site)
+						call := body[i+len(site):]
+						if j := strings.IndexByte(call, ')'); j >= 0 {
+							call = call[:j]
+						}
+						for k, arg := range strings.Split(call, ",") {
+							arg = strings.TrimSpace(arg)
+							boxed := (k == 0 && c10Shapes[sh].id != "src-interface") || (k == 1 && c10Shapes[sh].id != "dst-interface")
+							if k < 2 && boxed && strings.HasPrefix(arg, "*") {
+								return []report.Finding{{Key: "C10|hook-gets-a-copy|mixed|" + feat, What: "accepted, and the interface-typed hook parameter receives the dereferenced copy " + arg + " instead of the function's own operand: " + site + call + ")"}}
+							}
 						}
 					}
 				}
